@@ -1,1 +1,61 @@
-(* C05 *) From PMC Require Import Spec.Lemmas.
+(* C05 — rewriting to the restricted syntax and LNot preserve meaning
+   (language.py LNot; CTLS/language.py, CTL/language.py, LTL/language.py
+   get_equivalent_restricted_formula).  Theorems only; proofs in Proofs/RewriteP.v.
+   [sat] is the path semantics of doc/source/logics.rst (Spec/Semantics.v); the
+   equivalences hold on EVERY Kripke structure and path, not only on finite total ones. *)
+From PMC Require Import Spec.Lemmas Proofs.RewriteP.
+
+(* LNot f is equivalent to not f ... *)
+Theorem C05_LNot_sem : forall K p f, sat K p (LNot f) <-> ~ sat K p f.
+Proof. exact LNot_sem. Qed.
+Print Assumptions C05_LNot_sem.
+
+(* ... and never begins with two negations *)
+Theorem C05_LNot_head : forall f, starts_with_two_nots (LNot f) = false.
+Proof. exact LNot_head. Qed.
+Print Assumptions C05_LNot_head.
+
+(* CTL* (and LTL path) formulas: result over {true, false, atoms, not, or, X, U, E} ... *)
+Theorem C05_restrict_alphabet : forall f, restricted (restrict f) = true.
+Proof. exact restrict_restricted. Qed.
+Print Assumptions C05_restrict_alphabet.
+
+(* ... satisfied by exactly the same paths of every structure *)
+Theorem C05_restrict_sem : forall K p f, sat K p (restrict f) <-> sat K p f.
+Proof. exact restrict_sem. Qed.
+Print Assumptions C05_restrict_sem.
+
+(* LTL: A rho ~> A rho' with rho' in the restricted LTL alphabet {not, or, X, U} (no
+   quantifier is introduced, the tableau accepts it) and the same meaning *)
+Theorem C05_restrict_ltl : forall g, ltl_path g = true ->
+  restrict_ltl (FA g) = FA (restrict g) /\ ltl_path (restrict g) = true /\
+  tableau_ok (restrict g) = true /\
+  forall K p, sat K p (restrict_ltl (FA g)) <-> sat K p (FA g).
+Proof.
+  intros g Hg. split; [reflexivity|]. split; [exact (restrict_ltl_path g Hg)|].
+  split; [exact (restrict_tableau_ok g Hg)|].
+  intros K p. simpl. split; intros H q Hq H0; apply (restrict_sem K q g); apply H; assumption.
+Qed.
+Print Assumptions C05_restrict_ltl.
+
+(* CTL: every CTL state formula is rewritten (never the final `raise TypeError`) into the
+   alphabet {true, false, atoms, not, or, EX, EU, EG}, stays a CTL state formula, and has
+   the same meaning on every structure and path *)
+Theorem C05_restrict_ctl : forall f, ctl_state f = true ->
+  exists r, restrict_ctl f = Some r /\ restricted_ctl r = true /\ ctl_state r = true /\
+            height r <= 3 * height f /\
+            forall K p, sat K p r <-> sat K p f.
+Proof. exact restrict_ctl_spec. Qed.
+Print Assumptions C05_restrict_ctl.
+
+Theorem C05_restrict_ctl_reject : forall f, ctl_state f = false -> restrict_ctl f = None.
+Proof. exact restrict_ctl_none. Qed.
+Print Assumptions C05_restrict_ctl_reject.
+
+(* non-vacuity *)
+From Coq Require Import String.
+Example C05_example :
+  restrict_ctl (FA (FU (FAtom "p") (FAnd [FAtom "q"; FE (FR (FAtom "p") (FBool false))])))%string <> None /\
+  restrict (FG (FImp (FAtom "p") (FF (FAtom "q"))))%string =
+    FNot (FU (FBool true) (FNot (FOr [FNot (FAtom "p"); FU (FBool true) (FAtom "q")])))%string.
+Proof. vm_compute. split; [discriminate|reflexivity]. Qed.
